@@ -15,6 +15,7 @@ import (
 	corev1 "k8s.io/api/core/v1"
 	"k8s.io/apimachinery/pkg/api/resource"
 	metav1 "k8s.io/apimachinery/pkg/apis/meta/v1"
+	"k8s.io/apimachinery/pkg/types"
 	clock "k8s.io/utils/clock/testing"
 	"sigs.k8s.io/controller-runtime/pkg/client"
 	"sigs.k8s.io/controller-runtime/pkg/client/interceptor"
@@ -106,6 +107,8 @@ type world struct {
 	queue    *disruption.Queue
 	its      map[string]*cloudprovider.InstanceType
 	podIDs   map[string]int
+	objs     []client.Object
+	deliver  []func() // deliveries to the cluster state, in order, once the client exists
 }
 
 func price(units int64) float64 { return float64(units) / 1024.0 }
@@ -143,15 +146,12 @@ func newWorld(spec *worldSpec) *world {
 		FeatureGates: test.FeatureGates{SpotToSpotConsolidation: &spec.S2S, ReservedCapacity: &spec.Reserved}})
 	w := &world{spec: spec, ctx: options.ToContext(context.Background(), opts), clk: clock.NewFakeClock(time.Unix(1700000000, 0)), cp: fake.NewCloudProvider(),
 		recorder: test.NewEventRecorder(), its: map[string]*cloudprovider.InstanceType{}, podIDs: map[string]int{}}
-	w.c = kit.NewClient(interceptor.Funcs{})
 	for _, s := range spec.Catalog {
 		it := mkInstanceType(s)
 		w.its[s.Name] = it
 		w.cp.InstanceTypes = append(w.cp.InstanceTypes, it)
 	}
-	w.cluster = state.NewCluster(w.clk, w.c, w.cp)
-	w.prov = provisioning.NewProvisioner(w.c, w.recorder, w.cp, w.cluster, w.clk, deviceallocation.NewController(w.c), virtualpods.NewVirtualPodCache(w.c))
-	w.queue = disruption.NewQueue(w.c, w.recorder, w.cluster, w.clk, w.prov)
+	// every write to the fake client builds a REST mapper (expensive): hand it all objects at construction
 	for _, p := range spec.Pools {
 		w.addPool(p)
 	}
@@ -162,10 +162,19 @@ func newWorld(spec *worldSpec) *world {
 		pod := w.mkPod(p, "", "")
 		pod.Status.Conditions = []corev1.PodCondition{{Type: corev1.PodScheduled, Reason: corev1.PodReasonUnschedulable, Status: corev1.ConditionFalse}}
 		pod.Status.Phase = corev1.PodPending
-		kit.Apply(w.ctx, w.c, pod)
-		if err := w.cluster.UpdatePod(w.ctx, pod); err != nil {
-			panic(err)
-		}
+		w.objs = append(w.objs, pod)
+		w.deliver = append(w.deliver, func() {
+			if err := w.cluster.UpdatePod(w.ctx, pod); err != nil {
+				panic(err)
+			}
+		})
+	}
+	w.c = kit.NewClient(interceptor.Funcs{}, w.objs...)
+	w.cluster = state.NewCluster(w.clk, w.c, w.cp)
+	w.prov = provisioning.NewProvisioner(w.c, w.recorder, w.cp, w.cluster, w.clk, deviceallocation.NewController(w.c), virtualpods.NewVirtualPodCache(w.c))
+	w.queue = disruption.NewQueue(w.c, w.recorder, w.cluster, w.clk, w.prov)
+	for _, f := range w.deliver {
+		f()
 	}
 	return w
 }
@@ -196,7 +205,7 @@ func (w *world) addPool(p poolSpec) {
 		reqs = append(reqs, v1.NodeSelectorRequirementWithMinValues{Key: famKey, Operator: corev1.NodeSelectorOpExists, MinValues: &mvv})
 	}
 	np.Spec.Template.Spec.Requirements = reqs
-	kit.Apply(w.ctx, w.c, np)
+	w.objs = append(w.objs, np)
 }
 
 func providerID(name string) string { return "fake:///" + name }
@@ -218,7 +227,7 @@ func (w *world) mkPod(p podSpec, node string, pinValue string) *corev1.Pod {
 	}
 	pod := test.Pod(test.PodOptions{
 		NodeSelector: sel,
-		ObjectMeta: metav1.ObjectMeta{Name: p.Name, Namespace: "default", Annotations: ann,
+		ObjectMeta: metav1.ObjectMeta{Name: p.Name, Namespace: "default", Annotations: ann, UID: types.UID("uid-" + p.Name), // the fake client assigns no UIDs; the scheduler keys its pod cache and queue by UID
 			OwnerReferences: []metav1.OwnerReference{{APIVersion: "apps/v1", Kind: "ReplicaSet", Name: "rs", UID: "rs-uid", Controller: ptr(true), BlockOwnerDeletion: ptr(true)}}},
 		NodeName:             node,
 		ResourceRequirements: corev1.ResourceRequirements{Requests: corev1.ResourceList{corev1.ResourceCPU: resource.MustParse(fmt.Sprintf("%dm", p.CPUm))}},
@@ -260,8 +269,8 @@ func (w *world) addNode(n nodeSpec) {
 		cs.SetTrue(v1.ConditionTypeInitialized)
 	}
 	cs.SetTrue(v1.ConditionTypeConsolidatable)
-	kit.Apply(w.ctx, w.c, nc)
-	w.cluster.UpdateNodeClaim(nc)
+	w.objs = append(w.objs, nc)
+	w.deliver = append(w.deliver, func() { w.cluster.UpdateNodeClaim(nc) })
 
 	nl := map[string]string{}
 	for k, v := range labels {
@@ -279,19 +288,23 @@ func (w *world) addNode(n nodeSpec) {
 	node := test.Node(test.NodeOptions{ObjectMeta: metav1.ObjectMeta{Name: n.Name, Labels: nl, Annotations: ann, Finalizers: []string{"karpenter.sh/test-finalizer"}},
 		ProviderID: providerID(n.Name), Allocatable: alloc, Capacity: alloc})
 	node.Status.Conditions = []corev1.NodeCondition{{Type: corev1.NodeReady, Status: corev1.ConditionTrue}}
-	kit.Apply(w.ctx, w.c, node)
-	if err := w.cluster.UpdateNode(w.ctx, node); err != nil {
-		panic(err)
-	}
-	for _, p := range n.Pods {
-		pod := w.mkPod(p, n.Name, n.Name)
-		kit.Apply(w.ctx, w.c, pod)
-		if err := w.cluster.UpdatePod(w.ctx, pod); err != nil {
+	w.objs = append(w.objs, node)
+	w.deliver = append(w.deliver, func() {
+		if err := w.cluster.UpdateNode(w.ctx, node); err != nil {
 			panic(err)
 		}
+	})
+	for _, p := range n.Pods {
+		pod := w.mkPod(p, n.Name, n.Name)
+		w.objs = append(w.objs, pod)
+		w.deliver = append(w.deliver, func() {
+			if err := w.cluster.UpdatePod(w.ctx, pod); err != nil {
+				panic(err)
+			}
+		})
 	}
 	if n.Marked {
-		w.cluster.MarkForDeletion(providerID(n.Name))
+		w.deliver = append(w.deliver, func() { w.cluster.MarkForDeletion(providerID(n.Name)) })
 	}
 }
 
